@@ -829,10 +829,21 @@ func rulesC09(cx *Ctx) []Obligation {
 	}
 	input := r.Entry.Params[1].Name()
 	reduce := P.Func("goldilocks", "(*Chip).Reduce")
+	sponge := P.Func("poseidon", "(*GoldilocksChip).HashNToMNoPad")
 	var redSites []string
 	whyR := "no call gl.Chip.Reduce(input[i])"
 	for _, rec := range r.Recs {
-		if rec.Kind != "call" || rec.Callee != reduce || len(rec.Chain) != 0 || len(rec.Args) < 2 {
+		if rec.Kind != "call" || rec.Callee != reduce || len(rec.Args) < 2 {
+			continue
+		}
+		// directly in HashNoPad or in a helper of the same package it calls (extracted loop)
+		inPkg := true
+		for _, cs := range rec.Chain {
+			if cs.Callee == nil || fnPkgShort(cs.Callee) != "poseidon" || cs.Callee == sponge {
+				inPkg = false
+			}
+		}
+		if !inPkg {
 			continue
 		}
 		p, okk := rec.Args[1].Definite()
